@@ -19,6 +19,12 @@ CHECKS = {
             "stub": ["producer and consumer tasks (seeded scheduler decides pushes vs drains)"],
             "not_run": ["interleave, zip, merge, nullif, shift, dictionary GC (pure kernels; first sentence of C03 is not decided by this technique)"],
         },
+        "level_text": "seeded exploration of producer/consumer histories of the stateful BatchCoalescer against an executable row-level reference model, "
+                      "checked after every step (observers) and over the whole history (conservation, order, batch sizes); sampling, not proof",
+        "design_ref": "DESIGN.md section 4 (C03)",
+        "level_note": "decides only the coalescer-history sentence of C03; per-kernel equivalence for filter/take/concat is exercised only on the paths the coalescer takes; "
+                      "trusted: in-tree simulator, value extraction through arrow's safe accessors, ArrayData::validate_full",
+        "technique": "deterministic simulation: seeded producer/consumer schedule over a stateful buffer, reference-model refinement check, tape replay + shrinking",
         "assumptions": TRUSTED + [
             "ArrayData::validate_full is trusted as the validity oracle for emitted batches",
             "only the coalescer-history sentence of C03 is decided; per-kernel row-by-row equivalence is a pure-function claim",
@@ -26,3 +32,26 @@ CHECKS = {
         ],
     },
 }
+
+
+NOT_APPLICABLE = [
+    {"property_id": "C01", "reason": "well-formedness of results of builders/kernels/conversions is a universal claim about pure functions of in-memory values; no seam, schedule, fault or shared state for a simulator to own (arrays returned by readers under injected faults are validated inside the C08/C14/C18 checks)"},
+    {"property_id": "C02", "reason": "congruence of accessors, == and kernels across physical realisations relates two deterministic in-memory computations; there is no nondeterminism to control"},
+    {"property_id": "C06", "reason": "pushdown == post-filter is a pure function of (file bytes, reader options); the part that depends on I/O behaviour is decided under C15"},
+    {"property_id": "C07", "reason": "soundness of statistics, page indexes and bloom filters is a pure function of the values written and the writer configuration"},
+    {"property_id": "C09", "reason": "completeness of validation is a predicate on in-memory layouts; pure"},
+    {"property_id": "C10", "reason": "agreement of comparator, sort, rank, partition and comparison kernels is a pure-function claim"},
+    {"property_id": "C11", "reason": "row-format order preservation, injectivity and inversion are pure; the converter keeps no state an external schedule could perturb"},
+    {"property_id": "C12", "reason": "arithmetic / aggregate exactness is a pure-function claim"},
+    {"property_id": "C13", "reason": "cast and text round-trip laws are pure-function claims"},
+    {"property_id": "C17", "reason": "CSV/JSON/Avro write->read round trip and agreement with independent parsers quantify over inputs and options only; the transport-dependent behaviour of the same readers and writers is decided under C14 and C18"},
+    {"property_id": "C19", "reason": "bit-mask primitives are pure functions of (bytes, offset, length)"},
+    {"property_id": "C20", "reason": "string predicates and functions are pure"},
+]
+
+MANIFEST_TEXT = (
+    "Technique family: deterministic simulation with fault injection. All checks run `./check <ID>`, which rebuilds the harness against /repo's "
+    "working tree (RUSTFLAGS --cfg arrow_rs_verif), fans seeded runs out over 16 worker processes, re-executes a 2% sample in fresh processes "
+    "(determinism recheck), shrinks and replays every violation, and rewrites evidence/<ID>.json. VERIF_SEED and VERIF_TIER are honoured. "
+    "Exit 2 is a harness error and is never reported as a violation."
+)
